@@ -473,27 +473,8 @@ theorem wellknown_owner_is_live (he : NameEnc enc) {s : Bus.State} (hs : Bus.Rea
 
 /-! The hypotheses are satisfiable: strings `a`, `aa`, ... for the names; C13 history: 1 owns name 0,
 2 waits, 1 disconnects; C14 history: two connections, the first disconnects and the effect list of that
-disconnect is the one C13's model computes (`setOwner (enc 0) 1`: hand-over to the waiter). -/
-def exEnc (n : Bus.Name) : BusRoute.Name := List.replicate (n + 1) 'a'
-
-theorem exEnc_ok : NameEnc exEnc := by
-  constructor
-  · intro a b h
-    have := congrArg List.length h
-    simp [exEnc] at this
-    exact this
-  · intro a
-    simp [exEnc, List.replicate_succ]
-
-def exHist : List Bus.HStep :=
-  [.op .connect, .op .connect, .op (.request 1 0 0), .op (.request 2 0 0), .send 2 (.wellKnown 0),
-   .op (.disconnect 1)]
-
-/-- The state of C14's model in which the effects of the example are applied: two connections, the
-first already marked lost (`stepDisconnect` applies the effects after that). -/
-def exBase : BusRoute.State ρ :=
-  { conns := [{ BusRoute.Conn.fresh with isConnected := false }, BusRoute.Conn.fresh] }
-
+disconnect is the one C13's model computes (`setOwner (enc 0) 1`: hand-over to the waiter);
+`exEnc`, `exHist`, `exBase` are in Proofs/Bus/LookupRoute.lean. -/
 example (cfg : Cfg ρ) :
     ∃ (h : List (BusRoute.Event ρ)) (s : Bus.State), Bus.Reachable s ∧
       Bus.routerLookup s (.wellKnown 0) = some 2 ∧
